@@ -461,6 +461,10 @@ def routes(ctx: Ctx) -> None:
         # a tag that was filled through these routes (a `with` block among them) and is then copied
         for cname, cp in (("copy.copy", copy.copy), ("copy.deepcopy", copy.deepcopy)):
             g2 = safe_call(lambda: cp(t).tagify().get_html_string())
+            if g2 != want and g2[0] == "err" and g2 == safe_call(lambda: cp(build(strip(d))).tagify().get_html_string()):
+                # the copy function itself fails on this tree, with or without metadata nodes (copy.deepcopy of a
+                # chain ~100 tags deep exceeds the interpreter's recursion limit): nothing to judge
+                continue
             if g2 != want:
                 ctx.violation(f"{cname} of a tag filled through insert / append / extend / slice assignment / a with-block "
                               "renders differently from the tree without the metadata nodes", d,
